@@ -153,6 +153,45 @@ m("c17-overflow-scratch", "C17", ALGOS,
             distances[maxIdx] = 0;""",
   "gridDiskDistances: one-element overflow of the scratch distances array", "O6-redzone")
 
+m("c17-plain-malloc-leak-on-error", "C17", ALGOS,
+  """            distances = H3_MEMORY(calloc)(maxIdx, sizeof(int));
+            if (!distances) {
+                return E_MEMORY_ALLOC;
+            }
+            H3Error result = _gridDiskDistancesInternal(origin, k, out,
+                                                        distances, maxIdx, 0);
+            H3_MEMORY(free)(distances);
+            return result;""",
+  """            distances = calloc(maxIdx, sizeof(int));
+            if (!distances) {
+                return E_MEMORY_ALLOC;
+            }
+            H3Error result = _gridDiskDistancesInternal(origin, k, out,
+                                                        distances, maxIdx, 0);
+            if (result) return result;
+            free(distances);
+            return result;""",
+  "gridDiskDistances: scratch array from the plain libc calloc (seam bypassed) and leaked when the fallback "
+  "meets an invalid cell", "O3-leak")
+
+m("c17-plain-malloc-seam-free", "C17", H3INDEX,
+  """    H3Index *remainingHexes = H3_MEMORY(malloc)(numHexes * sizeof(H3Index));""",
+  """    H3Index *remainingHexes = malloc(numHexes * sizeof(H3Index));""",
+  "compactCells: first scratch array from plain malloc but released through H3_MEMORY(free)", "O4-bad-free")
+
+m("c17-leak-fill-loop-efailed", "C17", ALGOS,
+  """                    if (loopCount > numHexagons) {
+                        H3_MEMORY(free)(search);
+                        H3_MEMORY(free)(found);
+                        H3_MEMORY(free)(bboxes);
+                        return E_FAILED;""",
+  """                    if (loopCount > numHexagons) {
+                        H3_MEMORY(free)(search);
+                        H3_MEMORY(free)(bboxes);
+                        return E_FAILED;""",
+  "polygonToCells: 'found' leaked on the E_FAILED exit of the fill loop (output table full; reached only when "
+  "the caller's output array is not zero-filled or the size estimate is exceeded)", "O3-leak")
+
 # ------------------------------------------------------------------ C18 ----
 m("c18-memo-ipow", "C18", MATHX,
   """int64_t _ipow(int64_t base, int64_t exp) {
